@@ -1231,7 +1231,9 @@ void Image::draw_text_v(ssize_t x, ssize_t y, ssize_t* width, ssize_t* height,
     x_pos += 6;
   }
 
-  this->fill_rect(x_pos - 1, y_pos - 1, 1, 9, br, bg, bb, ba);
+  if (ba) {
+    this->fill_rect(x_pos - 1, y_pos - 1, 1, 9, br, bg, bb, ba);
+  }
 
   if (width) {
     *width = (x_pos > max_x_pos ? x_pos : max_x_pos) - x;
